@@ -383,8 +383,40 @@ def _derives_from_param(f, operand, pidx, depth=0):
 
 
 def _masks_bit0(f, operand):
+    """The tested value is `x & 1` - written at the test or where the tested local was last given its value."""
     e = f.exprs[operand.node]
-    return e["k"] == "bin" and e["op"] == "&" and 1 in (ex.const(f, e["c"][0]), ex.const(f, e["c"][1]))
+    if e["k"] == "bin" and e["op"] == "&" and 1 in (ex.const(f, e["c"][0]), ex.const(f, e["c"][1])):
+        return True
+    if e["k"] == "ref" and e.get("dk") == "local":
+        from .. import linear
+        rd = linear.reaching_def(f, e["name"], operand.node) if operand.node in flow.elem_pos(f) else None
+        if rd is None:
+            # the operand is a sub-expression of the branch condition: take the condition's block
+            for bid, b in f.blocks.items():
+                t = b.term
+                if t and "cond" in t and operand.node in set(ex.walk(f, t["cond"])) and b.elems:
+                    rd = linear.reaching_def(f, e["name"], b.elems[-1])
+                    if rd is None and _stores_name(f, b.elems[-1], e["name"]):
+                        rd = (b.elems[-1],) + tuple(_stores_name(f, b.elems[-1], e["name"]))
+                    break
+        if rd is not None and rd[1] in ("=", "&=") and rd[2] is not None:
+            r = f.exprs[ex.skip(f, rd[2])]
+            while r["k"] == "cast":
+                r = f.exprs[ex.skip(f, r["c"][0])]
+            if rd[1] == "&=" and ex.const(f, rd[2]) == 1:
+                return True
+            if r["k"] == "bin" and r["op"] == "&" and 1 in (ex.const(f, r["c"][0]), ex.const(f, r["c"][1])):
+                return True
+    return False
+
+
+def _stores_name(f, i, name):
+    for lhs, var, op, rhs in flow.stores(f, i) if flow.is_event(f, i) else []:
+        if var is not None and var["name"] == name:
+            return (op, rhs)
+        if lhs is not None and f.exprs[ex.skip(f, lhs)]["k"] == "ref" and f.exprs[ex.skip(f, lhs)].get("name") == name:
+            return (op, rhs)
+    return None
 
 
 def _is_result_of(f, operand, callee):
